@@ -981,6 +981,49 @@ NORMALIZERS['session'] = norm_session
 SUITES.update({'converter': suite_converter, 'profiler': suite_profiler, 'session': suite_session})
 
 
+def suite_spec(rng, n, stats):
+    """the Lean SPEC (Spec.simSet / score4 / qualStrict / qualRounded / ovcScore) against py_stringmatching on sets"""
+    import operator
+    OPS = {'>=': operator.ge, '>': operator.gt, '=': operator.eq}
+    fns = {'JACCARD': Jaccard().get_raw_score, 'COSINE': Cosine().get_raw_score, 'DICE': Dice().get_raw_score}
+    cases = []
+    for _ in range(n):
+        uni = Universe(rng, size=rng.randint(2, 30))
+        a = uni.sample_set(rng.randint(0, 12))
+        b = list(a) if rng.random() < 0.15 else uni.sample_set(rng.randint(0, 12))
+        rng.shuffle(b)
+        m = rng.choice(list(fns))
+        t, _ = gen_threshold(rng)
+        op = rng.choice(list(OPS))
+        raw = fns[m](set(a), set(b))
+        r4 = round(raw, 4)
+        if a and b:
+            ovc = OverlapCoefficient().get_raw_score(set(a), set(b))
+            if set(a) == set(b):
+                ovc = None
+        else:
+            ovc = None
+        exp = {'sim': pyv(raw), 'score4': pyv(r4), 'strict': bool(OPS[op](raw, t) and OPS[op](r4, t)), 'rounded': bool(OPS[op](r4, t)),
+               'both_empty': (not a and not b)}
+        cases.append(({'op': 'spec_sim', 'measure': m, 'a': a, 'b': b, 'threshold': pyv(t), 'comp_op': op},
+                      {'ok': exp, '_ovc': pyv(float(ovc)) if ovc is not None else None}, 'spec'))
+        stats.hit('spec.measure.' + m)
+    return cases
+
+
+def norm_spec(m, r):
+    ovc = r.pop('_ovc', None)
+    if 'ok' in m:
+        got = m['ok'].pop('ovc', None)
+        if ovc is not None and got != ovc:
+            m['ok']['ovc_mismatch'] = [got, ovc]
+    return m, r
+
+
+NORMALIZERS['spec'] = norm_spec
+SUITES['spec'] = suite_spec
+
+
 if __name__ == '__main__':
     import sys
     import time
